@@ -139,6 +139,122 @@ theorem more_sequence_roundtrip (cap : Nat) (hcap : cap > 0) :
       simp only [List.length_cons, receiveN, expectedReplies, List.map_cons] at hrec ⊢
       rw [hs.1, ← hrec]
 
+/-! ### any reply frames, and the whole call end to end -/
+
+/-- what the client's `receive` hands to the caller for a reply frame as the service's `sendMessage` built it -/
+def clientView (f : ReplyFrame) : RecvResult :=
+  if f.error ≠ [] then dispatchError f.error f.params else .reply f.params f.continues
+
+/-- a frame whose strings are valid UTF-8 and whose parameters (if any) are a well-formed JSON value other than
+    `null` of admissible depth — what `json.Marshal` of a handler's reply value produces -/
+def FrameOk (f : ReplyFrame) : Prop :=
+  utf8Ok f.error = true ∧ optWf f.params = true ∧ f.params ≠ some .null ∧ optDepth f.params < maxDepth
+
+/-- **every reply frame** — reply or error, with or without parameters, continues or not — is decoded by the
+    client to exactly what the service put in -/
+theorem frame_roundtrip (f : ReplyFrame) (h : FrameOk f) :
+    receiveFrame (render (replyObj f)) = clientView f := by
+  obtain ⟨he, hp, hnull, hd⟩ := h
+  obtain ⟨ms, hms, hdec⟩ := applyReplyMembers_replyObj f hnull
+  have hwf := replyObj_wf f he hp
+  have hdep : (replyObj f).depth ≤ maxDepth := by rw [replyObj_depth]; omega
+  have hdr : decodeReply (render (replyObj f)) =
+      some { params := f.params, continues := f.continues, error := f.error } := by
+    unfold decodeReply
+    rw [parseDoc_render _ hwf hdep, hms]
+    exact hdec
+  simp [receiveFrame, hdr, clientView]
+
+/-- **any sequence of reply frames arrives frame by frame, in order**, over any segmentation of the bytes the
+    service wrote, any reader capacity, possibly followed by further traffic -/
+theorem frames_roundtrip (cap : Nat) (hcap : cap > 0) :
+    ∀ (fs : List ReplyFrame), (∀ f ∈ fs, FrameOk f) →
+    ∀ (b : Bufio) (net : Net) (rest : Bytes), pending b net = (fs.map wireReply).flatten ++ rest →
+      receiveN cap fs.length b net = fs.map clientView := by
+  intro fs
+  induction fs with
+  | nil => intro _ b net rest _; simp [receiveN]
+  | cons f t ih =>
+    intro hall b net rest hpend
+    have hf := hall f (by simp)
+    have hnn : (0 : UInt8) ∉ render (replyObj f) := render_no_nul _ (replyObj_wf f hf.1 hf.2.1)
+    have hp' : pending b net = render (replyObj f) ++ 0 :: ((t.map wireReply).flatten ++ rest) := by
+      rw [hpend]; simp [wireReply, List.append_assoc]
+    have hc : cutAt 0 (pending b net) = some (render (replyObj f), (t.map wireReply).flatten ++ rest) := by
+      rw [hp']; exact cutAt_of_split 0 _ _ hnn
+    obtain ⟨b', net', h1, h2⟩ :=
+      (readBytes_spec cap hcap 0 (readFuel b net) [] b net (readFuel_enough b net)).1 _ _ hc
+    have hrecv : receive cap b net = (clientView f, b', net') := by
+      unfold receive
+      rw [h1]
+      simp only [List.nil_append, List.dropLast_concat]
+      rw [frame_roundtrip f hf]
+    have hrec := ih (fun x hx => hall x (by simp [hx])) b' net' rest h2
+    simp only [List.length_cons, receiveN, List.map_cons, hrecv, hrec]
+
+/-- **One call, end to end** (client `Send` → bytes → service `handleConnection`/`HandleMessage` → handler →
+    `sendMessage` → bytes → client `receive`): for every method string, every well-formed parameter value and
+    every admissible flag set, the client writes one request; the service reading those bytes handles exactly
+    the call the client made (same method, JSON-equal parameters, same flags), routes it as `route` says and
+    runs the handler once; and every frame the handler's replies produce comes back to the client, in order,
+    as exactly that reply or error — over any segmentation of the reply bytes. -/
+theorem rpc_end_to_end (cap : Nat) (hcap : cap > 0) (reg : Registry) (beh : Behaviour)
+    (m : Bytes) (p : JVal) (fl : Flags)
+    (hm : utf8Ok m = true) (hp : p.wf = true) (hnull : p ≠ .null) (hd : p.depth < maxDepth)
+    (hfl : (fl.more && fl.oneway) = false ∧ (fl.more && fl.upgrade) = false) :
+    let c : CallIn := { method := m, params := some p, more := fl.more, oneway := fl.oneway, upgrade := fl.upgrade }
+    let o := handleCall reg beh c
+    ∃ req, send m (.val p) fl = .written req ∧
+      connLoop reg beh [render req] =
+        { frames := o.frames, dispatched := dispatchEntry o, handled := 1,
+          ending := if o.failed then .handlerError else .eof } ∧
+      o.route = route (reg.ifaces.map (·.1)) m ∧
+      ((∀ f ∈ o.frames, FrameOk f) → ∀ (b : Bufio) (net : Net) (rest : Bytes),
+        pending b net = (o.frames.map wireReply).flatten ++ rest →
+        receiveN cap o.frames.length b net = o.frames.map clientView) := by
+  intro c o
+  refine ⟨callObj m (some p) fl.more fl.oneway fl.upgrade, ?_, ?_, ?_, ?_⟩
+  · simp [send, hfl.1, hfl.2]
+  · have hdecode := call_roundtrip m p fl.more fl.oneway fl.upgrade hm hp hnull hd
+    simp only [connLoop, hdecode]
+    by_cases hfail : o.failed = true
+    · simp [o, c] at hfail ⊢
+      simp [hfail]
+    · have hfail' : o.failed = false := by simpa using hfail
+      simp [o, c] at hfail' ⊢
+      simp [hfail']
+  · have hr : ∀ c : CallIn, (handleCall reg beh c).route = route (reg.ifaces.map (·.1)) c.method := by
+      intro c
+      unfold handleCall
+      cases h : route (reg.ifaces.map (·.1)) c.method <;> simp
+    exact hr c
+  · intro hall b net rest hpend
+    exact frames_roundtrip cap hcap o.frames hall b net rest hpend
+
+/-- non-vacuity of `rpc_end_to_end`: a registered interface whose handler streams two replies and an error on a
+    `more` call — the hypotheses hold and there are three frames to bring back -/
+example :
+    let reg : Registry := { ifaces := [(str "a.b", str "interface a.b")] }
+    let beh : Behaviour := fun _ _ _ =>
+      { acts := [.setContinues true, .reply (.val (.obj (.cons (str "i") (.num (str "1")) .nil))),
+                 .setContinues false, .reply .absent,
+                 .replyError (str "a.b.E") (.val (.obj .nil))] }
+    let c : CallIn := { method := str "a.b.M", params := some (.obj .nil), more := true }
+    (handleCall reg beh c).route = .user (str "a.b") (str "M") ∧
+    (handleCall reg beh c).frames.length = 3 ∧ ∀ f ∈ (handleCall reg beh c).frames, FrameOk f := by
+  refine ⟨by decide, by decide, ?_⟩
+  intro f hf
+  have : (handleCall { ifaces := [(str "a.b", str "interface a.b")] }
+      (fun _ _ _ => { acts := [.setContinues true, .reply (.val (.obj (.cons (str "i") (.num (str "1")) .nil))),
+                 .setContinues false, .reply .absent, .replyError (str "a.b.E") (.val (.obj .nil))] })
+      { method := str "a.b.M", params := some (.obj .nil), more := true }).frames =
+      [{ params := some (.obj (.cons (str "i") (.num (str "1")) .nil)), continues := true, error := [] },
+       { params := none, continues := false, error := [] },
+       { params := some (.obj .nil), continues := false, error := str "a.b.E" }] := by rfl
+  rw [this] at hf
+  simp only [List.mem_cons, List.not_mem_nil, or_false] at hf
+  rcases hf with rfl | rfl | rfl <;> (refine ⟨by decide, by decide, by simp, by decide⟩)
+
 /-! ### the member names on both sides come from the source (regenerated every run) -/
 
 /-- the client's call struct and the service's call struct use the same member names, the ones the
